@@ -22,6 +22,9 @@
    About the hypotheses (compared with C13_judge_bridge_udp / _step):
      - [find ... (js_conns stj) = Some (cid, (li, cn_peer cn, cn_peer_port cn))]: the judge learns the listen
        entry of the connection from its own bookkeeping (j_input); it must be the one of the model's record.
+     - [(li < dial_mark)%nat]: that record of the judge is one of an ACCEPTED connection (the judge files the
+       connections the proxy dialled with the listen entry + SpecProxy.dial_mark, and for a request read on one
+       of those no Route entry is the proxy's own).
      - [cn_from cn = tcp_transport lc]: the connection is an accepted one.  NEEDED: for a connection the proxy
        dialled cn_from is a KTcpConn transport with another port, the model would compare the Route entry with
        that port while the judge always compares with lc_tcp.
@@ -183,7 +186,7 @@ Definition relayed_from (pc : proxy_case) (from : stransport) (m : message) (o :
   routed (fun hs => step_next (c_keep_next_hop (pc_cfg pc)) (step_own (pc_cfg pc) from hs)) m mo.
 
 Lemma judge_C13_tcp_unfold pc st cid li ip port data outs closed jin lc :
-  find (fun x => Nat.eqb (fst x) cid) (js_conns st) = Some (cid, (li, ip, port)) ->
+  find (fun x => Nat.eqb (fst x) cid) (js_conns st) = Some (cid, (li, ip, port)) -> (li < dial_mark)%nat ->
   j_read data = Some jin -> nth_opt (c_listens (pc_cfg pc)) li = Some lc ->
   judge_C13_event pc st (EvTcpData cid data) outs closed =
   if (jm_has_cl jin && single_message jin)%bool then
@@ -195,8 +198,10 @@ Lemma judge_C13_tcp_unfold pc st cid li ip port data outs closed jin lc :
     end
   else O.
 Proof.
-  intros Fd J N. unfold judge_C13_event. cbv beta iota zeta delta [j_input]. rewrite Fd.
-  cbv beta iota zeta delta [ji_data ji_li ji_tcp]. rewrite J, N. cbv beta iota. cbn [negb orb]. reflexivity.
+  intros Fd M J N. unfold judge_C13_event. rewrite (C07_bridge.j_input_accepted st cid li ip port data Fd M).
+  cbv beta iota zeta delta [ji_data ji_li ji_tcp]. rewrite J, N.
+  rewrite (C07_bridge.ji_dialled_accepted st cid li ip port data Fd M).
+  cbv beta iota. cbn [negb orb]. reflexivity.
 Qed.
 
 (* no output: nothing to judge, whatever the event *)
@@ -217,7 +222,7 @@ Qed.
    model's messages carry the Route headers computed with the KTcpListen transport of that listener. *)
 Theorem C13_judge_accepts_tcp :
   forall pc st cid li ip port lc data closed jin m rest pre mos,
-  find (fun x => Nat.eqb (fst x) cid) (js_conns st) = Some (cid, (li, ip, port)) ->
+  find (fun x => Nat.eqb (fst x) cid) (js_conns st) = Some (cid, (li, ip, port)) -> (li < dial_mark)%nat ->
   nth_opt (c_listens (pc_cfg pc)) li = Some lc ->
   j_read data = Some jin -> parse_message data = Ok (m, rest) ->
   start_ok (start_line_print (m_start m)) ->
@@ -225,10 +230,10 @@ Theorem C13_judge_accepts_tcp :
   Forall2 (relayed_from pc (tcp_transport lc) m) (filter is_msg pre) mos -> Forall line_safe mos ->
   forall vis, judge_C13_event pc st (EvTcpData cid data) (map labelled (filter vis pre)) closed = 0%nat.
 Proof.
-  intros pc st cid li ip port lc data closed jin m rest pre mos Fd N J P Sok Dom F2 LS vis.
+  intros pc st cid li ip port lc data closed jin m rest pre mos Fd M N J P Sok Dom F2 LS vis.
   pose proof (read_headers_agree _ _ _ _ J P) as HR.
   destruct (read_agree _ _ _ _ J P) as (_ & _ & _ & Bd & _).
-  rewrite (judge_C13_tcp_unfold pc st cid li ip port data _ closed jin lc Fd J N).
+  rewrite (judge_C13_tcp_unfold pc st cid li ip port data _ closed jin lc Fd M J N).
   destruct (jm_has_cl jin && single_message jin)%bool; [|reflexivity].
   destruct (j_request jin) as [q|] eqn:Q; [|reflexivity].
   destruct (all_sip (jq_routes q)); [|reflexivity].
@@ -258,7 +263,7 @@ Qed.
 Theorem C13_judge_bridge_tcp_msg_gen :
   forall pc stj cid li lc cn ip port data closed jin m rest e x x',
   nth_opt (c_listens (pc_cfg pc)) li = Some lc -> e_cfg e = pc_cfg pc -> e_lc e = lc ->
-  find (fun x => Nat.eqb (fst x) cid) (js_conns stj) = Some (cid, (li, ip, port)) ->
+  find (fun x => Nat.eqb (fst x) cid) (js_conns stj) = Some (cid, (li, ip, port)) -> (li < dial_mark)%nat ->
   cn_from cn = tcp_transport lc ->
   j_read data = Some jin -> parse_message data = Ok (m, rest) ->
   is_request m = true ->
@@ -270,7 +275,7 @@ Theorem C13_judge_bridge_tcp_msg_gen :
   exists pre, x_outs x' = x_outs x ++ pre /\ (msg_count pre <= 1)%nat /\
     forall vis, judge_C13_event pc stj (EvTcpData cid data) (map labelled (filter vis pre)) closed = 0%nat.
 Proof.
-  intros pc stj cid li lc cn ip port data closed jin m rest e x x' N He Hlc Fd Hcf J P R Dom HV Hsrc Hbr Ha Hu Ht HLn H.
+  intros pc stj cid li lc cn ip port data closed jin m rest e x x' N He Hlc Fd HMk Hcf J P R Dom HV Hsrc Hbr Ha Hu Ht HLn H.
   rewrite Hcf in H.
   destruct (read_agree _ _ _ _ J P) as (_ & _ & _ & _ & PS).
   destruct (B7.read_agree_all _ _ _ _ J P) as (_ & PR).
@@ -293,7 +298,7 @@ Proof.
   { intros o I. apply filter_In in I. destruct I as [I M]. destruct (W o I M) as (mo & B & Gm & Rt).
     exists mo. split; [split; assumption|apply B7.good_line_safe; exact Gm]. }
   destruct (forall2_and_r _ _ _ _ F2) as (F2a & F2b).
-  exact (C13_judge_accepts_tcp pc stj cid li ip port lc data closed jin m rest pre mos Fd N J P Sok Dom F2a F2b vis).
+  exact (C13_judge_accepts_tcp pc stj cid li ip port lc data closed jin m rest pre mos Fd HMk N J P Sok Dom F2a F2b vis).
 Qed.
 
 (* The same in the requested shape: the judge's record of the connection holds the peer of the model's
@@ -304,6 +309,7 @@ Theorem C13_judge_bridge_tcp_msg :
   forall pc stj cid li lc cn data closed jin m rest e x x',
   nth_opt (c_listens (pc_cfg pc)) li = Some lc -> e_cfg e = pc_cfg pc -> e_lc e = lc ->
   find (fun x => Nat.eqb (fst x) cid) (js_conns stj) = Some (cid, (li, cn_peer cn, cn_peer_port cn)) ->
+  (li < dial_mark)%nat ->
   cn_li cn = li -> cn_id cn = cid ->
   cn_from cn = {| t_kind := KTcpListen; t_addr := lc_addr lc; t_port := lc_tcp lc |} ->
   j_read data = Some jin -> parse_message data = Ok (m, rest) -> trim_left rest = [] ->
@@ -316,9 +322,9 @@ Theorem C13_judge_bridge_tcp_msg :
   exists pre, x_outs x' = x_outs x ++ pre /\ (msg_count pre <= 1)%nat /\
     forall vis, judge_C13_event pc stj (EvTcpData cid data) (map labelled (filter vis pre)) closed = 0%nat.
 Proof.
-  intros pc stj cid li lc cn data closed jin m rest e x x' N He Hlc Fd _ _ Hcf J P _ R Dom HV Hsrc Hbr Ha Hu Ht HLn H.
+  intros pc stj cid li lc cn data closed jin m rest e x x' N He Hlc Fd M _ _ Hcf J P _ R Dom HV Hsrc Hbr Ha Hu Ht HLn H.
   exact (C13_judge_bridge_tcp_msg_gen pc stj cid li lc cn (cn_peer cn) (cn_peer_port cn) data closed jin m rest e x x'
-           N He Hlc Fd Hcf J P R Dom HV Hsrc Hbr Ha Hu Ht HLn H).
+           N He Hlc Fd M Hcf J P R Dom HV Hsrc Hbr Ha Hu Ht HLn H).
 Qed.
 
 (* a chunk that holds one message and then only blanks (keep-alive CR LF): one process_message, then the
@@ -350,6 +356,7 @@ Theorem C13_judge_bridge_tcp_step :
   forall pc stj fx now br st st' outs cid li lc cn data closed jin m rest,
   nth_opt (c_listens (pc_cfg pc)) li = Some lc ->
   find (fun x => Nat.eqb (fst x) cid) (js_conns stj) = Some (cid, (li, cn_peer cn, cn_peer_port cn)) ->
+  (li < dial_mark)%nat ->
   find (fun x => Nat.eqb (cn_id x) cid) (st_conns st) = Some cn ->
   cn_li cn = li ->
   cn_from cn = {| t_kind := KTcpListen; t_addr := lc_addr lc; t_port := lc_tcp lc |} ->
@@ -363,7 +370,7 @@ Theorem C13_judge_bridge_tcp_step :
   forall vis, judge_C13_event pc stj (EvTcpData cid data) (map labelled (filter vis outs)) closed = 0%nat.
 Proof.
   intros pc stj fx now br st st' outs cid li lc cn data closed jin m rest
-         N Fd Fc Hli Hcf J P Hr R Dom HV Hsrc Hbr Ha Hu Ht HLn H vis.
+         N Fd M Fc Hli Hcf J P Hr R Dom HV Hsrc Hbr Ha Hu Ht HLn H vis.
   subst li.
   unfold proxy_step in H. rewrite Fc in H.
   destruct (cn_open cn); [|injection H as _ <-; apply judge_C13_no_output].
@@ -373,7 +380,7 @@ Proof.
   match type of H with context [process_message ?e ?a ?b ?f ?r ?t ?mm ?xx] =>
     destruct (process_message e a b f r t mm xx) as [x'| |] eqn:PM; try discriminate H;
     destruct (C13_judge_bridge_tcp_msg_gen pc stj cid (cn_li cn) lc cn (cn_peer cn) (cn_peer_port cn) data closed
-                jin m rest e xx x' N eq_refl eq_refl Fd Hcf J P R Dom HV Hsrc Hbr Ha Hu Ht HLn PM)
+                jin m rest e xx x' N eq_refl eq_refl Fd M Hcf J P R Dom HV Hsrc Hbr Ha Hu Ht HLn PM)
       as (pre & O & _ & K) end.
   cbn [x_outs app] in O. injection H as _ <-. rewrite O. apply K.
 Qed.
@@ -496,7 +503,7 @@ Proof.
   { assert (E : st_learned t13_st1 = []) by (vm_compute; reflexivity). rewrite E. intros h t A. discriminate A. }
   exact (C13_judge_bridge_tcp_step t13_pc t13_js1 all_fixed 1000%Z (branch_of 1) t13_st1 s t13_outs
            0%nat 0%nat t13_lc t13_cn t13_req [] jin (parsed t13_req) crlf
-           t13_hyp_listener t13_hyp_judge_conn t13_hyp_model_conn eq_refl eq_refl J t13_hyp_parse t13_hyp_rest
+           t13_hyp_listener t13_hyp_judge_conn C07_bridge.zero_below_mark t13_hyp_model_conn eq_refl eq_refl J t13_hyp_parse t13_hyp_rest
            t13_hyp_request t13_hyp_routes HV Hsrc Hbr Ha Hu Ht HLn Hrun).
 Qed.
 
